@@ -852,6 +852,9 @@ impl Run {
             self.seq_close_all_but_one();
             self.ensure_owner();
             self.busy_owner();
+            if self.held.is_empty() {
+                return;
+            }
             let (h, db) = self.held.remove(0);
             let mut jobs = vec![Job::Close(h, db)];
             for _ in 0..self.rng.gen_range(1..=3) {
